@@ -2182,6 +2182,10 @@ func (t *Table) ApplyTableStyle(config *TableStyleConfig) error {
 
 // SetTableBorders 设置表格边框
 func (t *Table) SetTableBorders(config *TableBorderConfig) error {
+	if config == nil {
+		return fmt.Errorf("表格边框配置不能为空")
+	}
+
 	if t.Properties == nil {
 		t.Properties = &TableProperties{}
 	}
